@@ -104,6 +104,8 @@ AssembleFails(e) ==
             /\ ProductExpected(g) => out.kind = "product"
             /\ out.kind = "product" => ProductAllowed(g)
             /\ out.kind = "error" => ErrorAllowed(g, out.exc))
+        \* C01: a chain that closes yields the product (what it is, is judged below)
+        \cup (IF ProductExpected(g) THEN Chk("C01:ProductReturned", out.kind = "product") ELSE {})
         \* C10: records with citations assemble like records without them
         \cup (IF \E x \in {e.vec} \cup SeqToSet(e.mods) : \E i \in 1..Len(x.feats) : Len(x.feats[i].cites) > 0
               THEN Chk("C10:CitedAssembleLikeUncited",
@@ -160,8 +162,10 @@ InsertOf(d, nenz) ==
      ELSE d.tgt
 NextLevelFails(e) ==
   LET dm == Dm(e)  dv == Dv(e)  P == e.out.seq IN
-  IF e.out.kind # "product" \/ ~dv.ok \/ (\E i \in 1..Len(dm) : ~dm[i].ok \/ Len(dm[i].tgt) < e.enz.ovh + 2)
+  IF ~dv.ok \/ (\E i \in 1..Len(dm) : ~dm[i].ok \/ Len(dm[i].tgt) < e.enz.ovh + 2)
   THEN {"S:C11Precondition"}
+  ELSE IF e.out.kind # "product"
+  THEN (IF ProductExpected(Graph(dm, dv)) THEN {"C11:LevelAssemblySucceeds"} ELSE {"S:C11Precondition"})
   ELSE LET g == Graph(dm, dv) IN
   IF ~ProductExpected(g) \/ g.unused # {} \/ ~TwoSites(P, e.nenz) THEN {"S:C11Precondition"}
   ELSE IF LET d0 == DecompModule(P, e.nenz) IN d0.ok /\ Len(d0.tgt) < e.nenz.ovh + MinBody
